@@ -4,13 +4,13 @@
 
 #![allow(dead_code)]
 
-#[path = "/tmp/dev-repo/specification-derive/src/ast.rs"]
+#[path = "/repo/specification-derive/src/ast.rs"]
 mod ast;
-#[path = "/tmp/dev-repo/specification-derive/src/attr.rs"]
+#[path = "/repo/specification-derive/src/attr.rs"]
 mod attr;
-#[path = "/tmp/dev-repo/specification-derive/src/easy_ebml.rs"]
+#[path = "/repo/specification-derive/src/easy_ebml.rs"]
 mod easy_ebml;
-#[path = "/tmp/dev-repo/specification-derive/src/pathing.rs"]
+#[path = "/repo/specification-derive/src/pathing.rs"]
 mod pathing;
 
 use std::collections::BTreeMap;
